@@ -313,7 +313,18 @@ def gen_trace(tier, rng):
                                         [text_reply([ok(1)]) if k == 'ok' else TRACE_OUTCOMES[k]() for k in seq], tag='trace')
 
 
+def gen_overlap(tier, rng):
+    """attempts in flight at the same time on one client object: each is traced like a lone request"""
+    for n in (2, 3):
+        for ntr in (1, 2, 3):
+            for kind in TRACE_OUTCOMES:
+                if kind in ('cancelled', 'keyboard-interrupt', 'base-exception'):
+                    continue
+                yield send_case(client_cfg(tracers=ntr, caller_ctx=True), single(), [TRACE_OUTCOMES[kind]()], call=True, tag='trace', overlap={'n': str(n)})
+
+
 def generate(tier, rng):
+    yield from gen_overlap(tier, rng)
     yield from gen_relate(tier, rng)
     yield from gen_relate_random(tier, rng)
     yield from gen_retry(tier, rng)
@@ -326,6 +337,18 @@ def generate(tier, rng):
 # ------------------------------------------------------------------------------------------------
 
 def run_impl(c):
+    if c.get('overlap'):
+        out = {}
+        for half, is_async in (('sync', False), ('async', True)):
+            lone = IC.run_send(c, is_async)                   # the lone request (what the model describes)
+            ov = IC.run_overlap(c, is_async)
+            # every overlapping request is traced and answered exactly like the lone one
+            same = all(x['trace'] == lone['trace'] and x['final'] == lone['final'] for x in ov['overlap']) and not ov['stray']
+            if not same:
+                bad = next((x for x in ov['overlap'] if x['trace'] != lone['trace'] or x['final'] != lone['final']), {'trace': ov['stray'], 'final': None})
+                lone = dict(lone, trace=bad['trace'], final=bad['final'], overlap_differs=True)
+            out[half] = lone
+        return out
     return {'sync': IC.run_send(c, False), 'async': IC.run_send(c, True)}
 
 
@@ -360,7 +383,7 @@ def _proj_one(prop, c, o):
     if prop == 'C19':
         return {'trace': o['trace'], 'raised': (o['final'] or {}).get('raised')}
     if prop == 'C11':
-        return {k: o[k] for k in ('wire', 'sends', 'sleeps', 'final', 'value', 'related', 'trace')}
+        return {k: o.get(k) for k in ('wire', 'sends', 'sleeps', 'final', 'value', 'related', 'trace')} | {'value_call': o.get('value_call', o['value'])}
     return None
 
 
@@ -501,9 +524,12 @@ def _oracle_half(prop, c, o, half):
                 got_ids = [r['id'] for r in got if r['id'] is not None]
                 if got_ids != want_ids:
                     fail('positional-attribution', 'responses are not attributed to the calls in the order the calls were made', want_ids)
-                elif all('error' not in by_id[k] for k in enc_calls) and not any(x.get('id') is None for x in doc):
+                elif [r['id'] for r in got][:len(want_ids)] != want_ids:
+                    # elements nobody asked for (null id) never take the position of a call
+                    fail('positional-attribution', 'position k does not hold the answer to the k-th call (a null-id element sits among them)', want_ids)
+                elif all('error' not in by_id[k] for k in enc_calls) and all('error' not in x for x in doc):
                     want = [enc(by_id[k]['result']) for k in enc_calls]
-                    if o['value'].get('tuple') != want:
+                    if (o['value'].get('tuple') or [])[:len(want)] != want:
                         fail('positional-attribution', 'the result tuple is not in call order', want)
                 rel = o['related']
                 if rel is not None and [r for r in rel if r is not None] != want_ids:
@@ -562,10 +588,21 @@ def _oracle_half(prop, c, o, half):
                 fail('last-exception-not-raised', 'the last attempt raised but the caller did not receive that exception', a['name'])
         elif raised in {cls.__name__ for cls in IC.EXC.values()}:
             fail('stale-exception', 'the last attempt returned a response but the caller received an earlier attempt\'s exception')
+    if prop in ('C19', 'C09') and c.get('tag') in ('trace', 'retry') and o.get('raised_attempt') is not None:
+        # the exception object that reaches the caller is the one the LAST attempt raised, not an earlier one of the same type
+        if o['raised_attempt'] != int(o['sends']) - 1:
+            fail('stale-exception-object', f'the caller received the exception raised by attempt {o["raised_attempt"]}, '
+                                           f'the last attempt was number {int(o["sends"]) - 1}')
     if prop == 'C19' and c.get('tag') in ('trace', 'retry'):
         ntr = int(c['client']['tracers'])
         ev = o['trace']
         sends = int(o['sends'])
+        ea = [a for a in (o.get('error_event_attempts') or [])]
+        if ntr and ea and any(a is not None for a in ea):
+            # on_error events come in blocks of `ntr` per failed attempt, each block given that attempt's own exception object
+            blocks = [ea[i:i + ntr] for i in range(0, len(ea), ntr)]
+            if any(len(set(b)) != 1 for b in blocks):
+                fail('trace-exception-object', 'tracers of one attempt were given different exception objects')
         if len(ev) != 2 * ntr * sends:
             fail('trace-count', f'{len(ev)} tracer events for {sends} attempts and {ntr} tracers')
             return f
